@@ -85,7 +85,10 @@ func (ww *WW) CheckCounters(from int) int {
 			}
 			ww.rc.S.Probe("c19_det_output_submitted")
 			if sg := mb.Sigs[out.B_]; sg != nil && sg.Seq < o.Seq {
-				W.Book.Violate("C19.counter_reuse", o.Path, "%s submitted the output of (keyset %s, counter %d) again in %s although it was already signed", o.From, e.Keyset, e.Counter, o.Path)
+				// cause: the operation in which that counter was first signed (the one that did not
+				// advance the stored counter)
+				origin := ww.opAt(sg.Seq)
+				W.Book.Violate("C19.counter_reuse", o.Path+"|first-signed-during:"+origin, "%s submitted the output of (keyset %s, counter %d) again in %s (during [%s]) although it was already signed during [%s]", o.From, e.Keyset, e.Counter, o.Path, ww.opAt(o.Seq), origin)
 			}
 		}
 	}
